@@ -67,7 +67,14 @@ def run_shard(task, base_seed):
         state = {"last": None}
 
         def body(case):
-            out = cl.check(case)
+            from .lib import MalformedResult
+            try:
+                out = cl.check(case)
+            except MalformedResult as e:
+                # the library handed back something that cannot be read as the object it claims to be
+                from .core import Out as _Out
+                out = _Out()
+                out.true("library result is a well-formed quaternion array / matrix", False, str(e))
             res["evaluations"] += 1
             for lb in out.labels:
                 res["labels"][lb] += 1
@@ -440,7 +447,13 @@ def do_replay(path):
     pid = doc["property"]
     prop = get_property(pid)
     cl = next(c for c in prop.clauses if c.name == doc["clause"])
-    out = cl.check(doc["case"])
+    from .lib import MalformedResult
+    try:
+        out = cl.check(doc["case"])
+    except MalformedResult as e:
+        from .core import Out as _Out
+        out = _Out()
+        out.true("library result is a well-formed quaternion array / matrix", False, str(e))
     bad = False
     for f in out.failures:
         kf = findings.match(pid, cl.name, f)
